@@ -293,14 +293,14 @@ theorem scanForIf_run (L : Lexer) : ∀ (tail : List Tok) (fuel : Nat) (s : LS) 
         subst h1
         exact scanForIf_run L tail n s1 (p + 1) b rest a2 tl2 (fun y hy => hx y (List.mem_cons_of_mem _ hy)) hb he2 hA2 hf1 hi
 
-/-- an INSERT inside a longer input: behind its VALUES list come tokens that end no statement, then one (`b`) that does -/
-theorem insertTail_run (L : Lexer) (fuel : Nat) (s : LS) (p : Nat) (cols : List Ident) (kw : Ident) (vals : Terms)
-    (tail : List Tok) (b : Tok) (rest : List Tok)
-    (hkw : kw.equal "values" = true) (htail : ∀ x ∈ tail, isDMLTerminator x.kind = false) (hb : isDMLTerminator b.kind = true)
-    (hA : At L p (renderCols cols (idt kw :: k tkLparen :: vals.renderElems (k tkRparen :: (tail ++ b :: rest))))) (hs : s.p = p)
+/-- an INSERT whose VALUES list is followed by at least one more token (`a2`): if the verdict is "idempotent" the values
+hold no non-deterministic call and the rest of the work was the scan for `IF` from that token on -/
+theorem insertTail_reaches (L : Lexer) (fuel : Nat) (s : LS) (p : Nat) (cols : List Ident) (kw : Ident) (vals : Terms)
+    (a2 : Tok) (tl2 : List Tok) (hkw : kw.equal "values" = true)
+    (hA : At L p (renderCols cols (idt kw :: k tkLparen :: vals.renderElems (k tkRparen :: a2 :: tl2)))) (hs : s.p = p)
     (hi : (insertTail L fuel s).1.idem = true) :
-    vals.nonIdem = false ∧ (insertTail L fuel s).2.1 = b.kind ∧ ∃ q, Fed (insertTail L fuel s).2.2 q b ∧ At L q (b :: rest) := by
-  obtain ⟨a, tl, hc⟩ := cols_first cols (idt kw :: k tkLparen :: vals.renderElems (k tkRparen :: (tail ++ b :: rest)))
+    vals.nonIdem = false ∧ ∃ s7 q, insertTail L fuel s = scanForIf L fuel s7 a2.kind ∧ Fed s7 q a2 ∧ At L q (a2 :: tl2) := by
+  obtain ⟨a, tl, hc⟩ := cols_first cols (idt kw :: k tkLparen :: vals.renderElems (k tkRparen :: a2 :: tl2))
   rw [hc] at hA
   have h1 := nextT_fst hA hs
   have hf1 := nextT_fed hA hs
@@ -335,7 +335,7 @@ theorem insertTail_run (L : Lexer) (fuel : Nat) (s : LS) (p : Nat) (cols : List 
     simp only at h3 hp3 hi ⊢
     subst h3
     simp only [ne_eq, not_true_eq_false, ↓reduceIte] at hi ⊢
-    obtain ⟨c, tlc, hbv, _⟩ := terms_first vals tkRparen (tail ++ b :: rest)
+    obtain ⟨c, tlc, hbv, _⟩ := terms_first vals tkRparen (a2 :: tl2)
     have hA3 := hA2.2.2
     rw [hbv] at hA3
     have h4 := nextT_fst hA3 hp3
@@ -344,7 +344,7 @@ theorem insertTail_run (L : Lexer) (fuel : Nat) (s : LS) (p : Nat) (cols : List 
     obtain ⟨t4, s5⟩ := o5
     simp only at h4 hf4 hi ⊢
     subst h4
-    have key := terms_entry (termsUntil_is L) (by decide) (by decide) vals (terms_all vals) fuel s5 _ (tail ++ b :: rest) c tlc hbv hA3 hf4
+    have key := terms_entry (termsUntil_is L) (by decide) (by decide) vals (terms_all vals) fuel s5 _ (a2 :: tl2) c tlc hbv hA3 hf4
     generalize parseTermsUntilRparen L fuel s5 c.kind = o6 at key hi ⊢
     obtain ⟨r, t5, s6⟩ := o6
     simp only at key hi ⊢
@@ -354,17 +354,111 @@ theorem insertTail_run (L : Lexer) (fuel : Nat) (s : LS) (p : Nat) (cols : List 
       by_cases ht5 : t5 = tkRparen
       · subst ht5
         simp only [ne_eq, not_true_eq_false, ↓reduceIte] at hi ⊢
-        obtain ⟨a2, tl2, he2⟩ : ∃ a2 tl2, tail ++ b :: rest = a2 :: tl2 := by
-          cases tail <;> simp
-        rw [he2] at hA4
         have h6 := nextT_fst hA4 rfl
         have hf6 := nextT_fed hA4 rfl
         generalize nextT L s6 = o7 at h6 hf6 hi ⊢
         obtain ⟨t6, s7⟩ := o7
         simp only at h6 hf6 hi ⊢
         subst h6
-        exact ⟨hn, scanForIf_run L tail fuel s7 _ b rest a2 tl2 htail hb he2 hA4 hf6 hi⟩
+        exact ⟨hn, s7, _, rfl, hf6, hA4⟩
       · simp [ht5, R.bad] at hi
     · simp [hr] at hi
+
+/-- an INSERT inside a longer input: behind its VALUES list come tokens that end no statement, then one (`b`) that does -/
+theorem insertTail_run (L : Lexer) (fuel : Nat) (s : LS) (p : Nat) (cols : List Ident) (kw : Ident) (vals : Terms)
+    (tail : List Tok) (b : Tok) (rest : List Tok)
+    (hkw : kw.equal "values" = true) (htail : ∀ x ∈ tail, isDMLTerminator x.kind = false) (hb : isDMLTerminator b.kind = true)
+    (hA : At L p (renderCols cols (idt kw :: k tkLparen :: vals.renderElems (k tkRparen :: (tail ++ b :: rest))))) (hs : s.p = p)
+    (hi : (insertTail L fuel s).1.idem = true) :
+    vals.nonIdem = false ∧ (insertTail L fuel s).2.1 = b.kind ∧ ∃ q, Fed (insertTail L fuel s).2.2 q b ∧ At L q (b :: rest) := by
+  obtain ⟨a2, tl2, he2⟩ : ∃ a2 tl2, tail ++ b :: rest = a2 :: tl2 := by
+    cases tail <;> simp
+  rw [he2] at hA
+  obtain ⟨hn, s7, q, heq, hF7, hA7⟩ := insertTail_reaches L fuel s p cols kw vals a2 tl2 hkw hA hs hi
+  rw [heq] at hi ⊢
+  exact ⟨hn, scanForIf_run L tail fuel s7 q b rest a2 tl2 htail hb he2 hA7 hF7 hi⟩
+
+/-- the scan for `IF` finds one before any token that ends the statement: "not idempotent" -/
+theorem scanForIf_if (L : Lexer) : ∀ (pre : List Tok) (fuel : Nat) (s : LS) (p : Nat) (post : List Tok) (a : Tok) (tl : List Tok),
+    (∀ x ∈ pre, isDMLTerminator x.kind = false) →
+    pre ++ k tkIf :: post = a :: tl → At L p (a :: tl) → Fed s p a →
+    (scanForIf L fuel s a.kind).1.idem = false
+  | [], fuel, s, p, post, a, tl, _, he, hA, hF => by
+    simp only [List.nil_append, List.cons.injEq] at he
+    obtain ⟨ha, htl⟩ := he
+    subst ha; subst htl
+    cases fuel with
+    | zero => simp [scanForIf, R.fuel]
+    | succ n =>
+      unfold scanForIf
+      simp only [k, show isDMLTerminator tkIf = false by decide, Bool.false_eq_true, ↓reduceIte]
+  | x :: pre, fuel, s, p, post, a, tl, hx, he, hA, hF => by
+    simp only [List.cons_append, List.cons.injEq] at he
+    obtain ⟨ha, htl⟩ := he
+    subst ha; subst htl
+    have hxk : isDMLTerminator x.kind = false := hx x (List.mem_cons_self ..)
+    obtain ⟨a2, tl2, he2⟩ : ∃ a2 tl2, pre ++ k tkIf :: post = a2 :: tl2 := by
+      cases pre <;> simp
+    have hA2 := hA.2
+    rw [he2] at hA2
+    have h1 := nextT_fst hA2 hF.1
+    have hf1 := nextT_fed hA2 hF.1
+    cases fuel with
+    | zero => simp [scanForIf, R.fuel]
+    | succ n =>
+      unfold scanForIf
+      simp only [hxk, Bool.false_eq_true, ↓reduceIte]
+      by_cases hif : x.kind = tkIf
+      · simp [hif]
+      · simp only [hif, ↓reduceIte]
+        generalize nextT L s = o at h1 hf1 ⊢
+        obtain ⟨t1, s1⟩ := o
+        simp only at h1 hf1 ⊢
+        subst h1
+        exact scanForIf_if L pre n s1 (p + 1) post a2 tl2 (fun y hy => hx y (List.mem_cons_of_mem _ hy)) he2 hA2 hf1
+
+/-- `INSERT … VALUES (…) <tokens that end no statement> IF …`: a conditional insert is never idempotent -/
+theorem insert_if (i : Insert) (pre post : List Tok) (hkw : i.valuesKw.equal "values" = true)
+    (hpre : ∀ x ∈ pre, isDMLTerminator x.kind = false) (htail : i.tail = pre ++ k tkIf :: post)
+    (L : Lexer) (fuel : Nat) (hA : At L 0 i.render) : (classify L fuel).idem = false := by
+  cases hc : (classify L fuel).idem with
+  | false => rfl
+  | true =>
+    exfalso
+    have h0 := nextT_fst (s := { p := 0 }) hA rfl
+    have hp0 := nextT_p (s := { p := 0 }) hA rfl
+    have hs := classify_insert L fuel h0 hc
+    have h1 := nextT_fst hA.2 hp0
+    have hp1 := nextT_p hA.2 hp0
+    obtain ⟨a2, tl2, he2⟩ : ∃ a2 tl2, pre ++ k tkIf :: post = a2 :: tl2 := by
+      cases pre <;> simp
+    have fin : ∀ s p, At L p (renderCols i.cols (idt i.valuesKw :: k tkLparen :: i.vals.renderElems (k tkRparen :: a2 :: tl2))) → s.p = p →
+        (insertTail L fuel s).1.idem = true → False := by
+      intro s p hA' hs' hi'
+      obtain ⟨_, s7, q, heq, hF7, hA7⟩ := insertTail_reaches L fuel s p i.cols i.valuesKw i.vals a2 tl2 hkw hA' hs' hi'
+      rw [heq] at hi'
+      have := scanForIf_if L pre fuel s7 q post a2 tl2 hpre he2 hA7 hF7
+      simp [this] at hi'
+    cases hks : i.ks with
+    | none =>
+      simp only [Insert.render, hks, renderName, htail, he2] at hA
+      have h2 := nextT_fst hA.2.2 hp1
+      have hp2 := nextT_p hA.2.2 hp1
+      have h3 := nextT_fst hA.2.2.2 hp2
+      have hp3 := nextT_p hA.2.2.2 hp2
+      rw [insertStmt_plain L fuel _ h1 h2 h3] at hs
+      exact fin _ _ hA.2.2.2.2 hp3 hs
+    | some q =>
+      simp only [Insert.render, hks, renderName, htail, he2] at hA
+      have h2 := nextT_fst hA.2.2 hp1
+      have hp2 := nextT_p hA.2.2 hp1
+      have h3 := nextT_fst hA.2.2.2 hp2
+      have hp3 := nextT_p hA.2.2.2 hp2
+      have h4 := nextT_fst hA.2.2.2.2 hp3
+      have hp4 := nextT_p hA.2.2.2.2 hp3
+      have h5 := nextT_fst hA.2.2.2.2.2 hp4
+      have hp5 := nextT_p hA.2.2.2.2.2 hp4
+      rw [insertStmt_qualified L fuel _ h1 h2 h3 h4 h5] at hs
+      exact fin _ _ hA.2.2.2.2.2.2 hp5 hs
 
 end CqlVerif.Ast
